@@ -753,6 +753,17 @@ func (ex *Exec) applyContract(fr *Frame, st *State, ct *Contract, fn *ssa.Functi
 		}
 		return env
 	}
+	// every contract relied upon at a call site is reported in the evidence
+	switch {
+	case ct.Trusted:
+		ex.note("ASSUMED contract of %s:%s applied at call sites (trusted: its body is not verified)", ct.Pkg, ct.FnName)
+	case ct.NoBody:
+		ex.note("ASSUMED contract of interface method %s:%s applied at call sites", ct.Pkg, ct.FnName)
+	case ct.External:
+		ex.note("ASSUMED contract of library function %s applied at call sites", ct.FnName)
+	default:
+		ex.note("contract of %s:%s applied at call sites (proved where that function is under a claimed property: %s)", ct.Pkg, ct.FnName, strings.Join(ct.Props, " "))
+	}
 	// receiver non-nil for pointer receivers
 	if fn != nil && fn.Signature.Recv() != nil {
 		if p, ok := args[0].(PtrV); ok {
